@@ -231,7 +231,10 @@ pub fn run(ctx: &mut Ctx) {
                         let authentic = match &model_tbs { Value::Bytes(t) => { let mut m = Hmac::<Sha256>::new_from_slice(kbytes).unwrap(); m.update(t); m.verify_slice(&sgb).is_ok() } _ => false };
                         let obs = match isomdl::cbor::from_slice::<MaybeTagged<coset::CoseMac0>>(&enc) {
                             Ok(c) => {
-                                let verifier = Hmac::<Sha256>::new_from_slice(kbytes).unwrap();
+                                // every other case: the key object handed in has absorbed other data before (an instance the
+                                // caller used for an earlier message): the tag is over the MAC_structure alone
+                                let mut verifier = Hmac::<Sha256>::new_from_slice(kbytes).unwrap();
+                                if ctx.evaluations % 2 == 1 { verifier.update(b"an earlier message of this key's owner"); ctx.count("mac0:verifier-used-before"); }
                                 let r = catch(|| c.verify(&verifier, det.as_deref(), ad.as_deref()));
                                 match r {
                                     Ok(isomdl::cose::mac0::VerificationResult::Success) => uint(0),
